@@ -9,6 +9,8 @@ Import ListNotations.
 Open Scope string_scope.
 Open Scope Z_scope.
 
+Definition is_copy_op (op : string) : bool := String.eqb op "mcopy" || is_nonmem_copy op.
+
 (* ---- certificates *)
 Definition pcert := (option Z * option Z)%type.            (* region, offset (None = unknown) *)
 Definition certs := list (N * pcert).
@@ -23,6 +25,27 @@ Definition opcert_eqb (a b : option pcert) : bool :=
 
 (* the certificate an instruction gives to its single output (None = the variable may not be certified) *)
 Definition lit_of (o : operand) : option Z := match o with OLit z => Some (z mod W) | _ => None end.
+(* phi: every incoming value is certified and in the same region; the offset is kept when all agree *)
+Definition join_cert (acc : option pcert) (c : pcert) : option pcert :=
+  match acc with
+  | None => Some c
+  | Some (r, k) => if oeqb r (fst c) then Some (r, if oeqb k (snd c) then k else None) else None
+  end.
+Fixpoint phi_cert (C : certs) (ops : list operand) (acc : option pcert) : option pcert :=
+  match ops with
+  | [] => acc
+  | OLab _ :: o :: t =>
+      match cert_op C o with
+      | Some c =>
+          match join_cert acc c with
+          | Some a => phi_cert C t (Some a)
+          | None => None
+          end
+      | None => None
+      end
+  | _ => None
+  end.
+
 Definition cert_of_def (C : certs) (i : inst) : option pcert :=
   let op := i_op i in
   if String.eqb op "alloca" then Some (Some (i_id i), Some 0)
@@ -37,6 +60,7 @@ Definition cert_of_def (C : certs) (i : inst) : option pcert :=
         | Some (Some r, _), Some (Some r', _) => None
         | Some (Some r, _), _ => Some (Some r, None)
         | _, Some (Some r, _) => Some (Some r, None)
+        | Some (None, _), Some (None, _) => Some (None, None)
         | _, _ => None
         end
     | _ => None
@@ -47,11 +71,15 @@ Definition cert_of_def (C : certs) (i : inst) : option pcert :=
         match cert_op C a, cert_op C b with
         | Some (None, Some x), Some (None, Some y) => Some (None, Some ((x - y) mod W))
         | Some (Some r, Some k), Some (None, Some y) => Some (Some r, Some (k - y))
+        | Some (Some r, _), Some (None, _) => Some (Some r, None)
+        | Some (None, _), Some (None, _) => Some (None, None)
         | _, _ => None
         end
     | _ => None
     end
-  else None.
+  else if String.eqb op "phi" then phi_cert C (i_args i) None
+  else if String.eqb op "nop" || String.eqb op "mstore" || is_copy_op op then None
+  else Some (None, None).    (* mload and every oracle instruction produce plain words *)
 
 Definition defines (x : N) (i : inst) : bool := existsb (N.eqb x) (i_outs i).
 Definition all_insts (f : func) : list inst := List.concat f.
@@ -131,7 +159,7 @@ Definition step_facts (C : certs) (F : list fact) (i : inst) : list fact :=
   let F := kill_outs F (i_outs i) in
   let op := i_op i in
   if String.eqb op "nop" || String.eqb op "assign" || String.eqb op "alloca" || String.eqb op "add" || String.eqb op "sub"
-     || String.eqb op "mload" then F
+     || String.eqb op "mload" || String.eqb op "phi" then F
   else if String.eqb op "mstore" then
     match i_args i with
     | [_; p] => kill_write C F (loc_of C p (Some 32))
@@ -143,7 +171,15 @@ Definition step_facts (C : certs) (F : list fact) (i : inst) : list fact :=
         let w := loc_of C d (size_lit n) in
         let F := kill_write C F w in
         match size_lit n with
-        | Some nz => if exact (cert_op C d) && odisjoint w (loc_of C s (Some nz)) then FCopy "mcopy" d s nz :: F else F
+        | Some nz =>
+            (* bytes copied from a region that is itself a valid copy of some source are a copy of that source too *)
+            let derived := flat_map (fun fc => match fc with FCopy op dF sF nF =>
+                               if (nF =? nz) && same_val C s dF &&
+                                  (if String.eqb op "mcopy" then odisjoint w (loc_of C sF (Some nz)) else true)
+                               then [FCopy op d sF nz] else [] end) F in
+            if exact (cert_op C d) then
+              (if odisjoint w (loc_of C s (Some nz)) then [FCopy "mcopy" d s nz] else []) ++ derived ++ F
+            else F
         | None => F
         end
     | _ => []
@@ -169,8 +205,6 @@ Definition inst_eqb (a b : inst) : bool :=
   forallb (fun p => operand_eqb (fst p) (snd p)) (combine (i_args a) (i_args b)) &&
   (List.length (i_outs a) =? List.length (i_outs b))%nat && forallb (fun p => N.eqb (fst p) (snd p)) (combine (i_outs a) (i_outs b)) &&
   Bool.eqb (i_wm a) (i_wm b) && Bool.eqb (i_wrd a) (i_wrd b) && (i_id a =? i_id b).
-
-Definition is_copy_op (op : string) : bool := String.eqb op "mcopy" || is_nonmem_copy op.
 
 (* R1: mcopy d, s, n  ~>  op2 d, s2, n   given a valid fact  mem[s..s+n) = op2-source[s2..s2+n)
    R2: mcopy d, s, n  ~>  nop            given a valid fact  mem[d..d+n) = mem[s..s+n) *)
@@ -214,11 +248,58 @@ Definition last_same (b b' : list inst) : bool :=
   | t :: _, t' :: _ => inst_eqb t t'
   | _, _ => false
   end.
-Definition check_block (C : certs) (b b' : list inst) : bool := last_same b b' && check_insts C [] b b'.
-Fixpoint check_blocks (C : certs) (f f' : func) : bool :=
-  match f, f' with
-  | [], [] => true
-  | b :: r, b' :: r' => check_block C b b' && check_blocks C r r'
-  | _, _ => false
+Definition check_block (C : certs) (F0 : list fact) (b b' : list inst) : bool := last_same b b' && check_insts C F0 b b'.
+
+(* ---- facts at block entries: a certificate E (one fact list per block), checked to be a post-fixpoint:
+   E(entry) = [] and for every CFG edge b -> l, every fact of E(l) is among the facts at the end of b *)
+Definition fact_eqb (a b : fact) : bool :=
+  match a, b with
+  | FCopy o1 d1 s1 n1, FCopy o2 d2 s2 n2 => String.eqb o1 o2 && operand_eqb d1 d2 && operand_eqb s1 s2 && (n1 =? n2)
   end.
-Definition check_func (C : certs) (f f' : func) : bool := certs_ok f C && check_blocks C f f'.
+Definition fact_in (fc : fact) (F : list fact) : bool := existsb (fact_eqb fc) F.
+Definition subset (A B : list fact) : bool := forallb (fun fc => fact_in fc B) A.
+Definition exit_facts (C : certs) (F0 : list fact) (b : list inst) : list fact := fold_left (step_facts C) b F0.
+Definition succs (b : list inst) : list N :=
+  match rev b with
+  | t :: _ => flat_map (fun o => match o with OLab l => [l] | _ => [] end) (i_args t)
+  | [] => []
+  end.
+Definition entry_of (E : list (list fact)) (l : N) : list fact := nth (N.to_nat l) E [].
+Definition edges_ok_block (C : certs) (E : list (list fact)) (b : list inst) (F0 : list fact) : bool :=
+  let X := exit_facts C F0 b in
+  forallb (fun l => subset (entry_of E l) X) (succs b).
+Fixpoint check_blocks (C : certs) (E : list (list fact)) (Es : list (list fact)) (f f' : func) : bool :=
+  match f, f', Es with
+  | [], [], [] => true
+  | b :: r, b' :: r', F0 :: Er => check_block C F0 b b' && edges_ok_block C E b F0 && check_blocks C E Er r r'
+  | _, _, _ => false
+  end.
+Definition entry_empty (E : list (list fact)) : bool := match E with [] :: _ => true | [] => true | _ => false end.
+Definition check_func (C : certs) (E : list (list fact)) (f f' : func) : bool :=
+  certs_ok f C && entry_empty E && check_blocks C E E f f'.
+
+(* ---- an (unverified) greatest-fixpoint computation of E, used to produce the certificate that check_func validates *)
+Definition universe (C : certs) (f : func) : list fact :=
+  flat_map (fun i => if is_copy_op (i_op i) then
+                       match i_args i with
+                       | [n; s; d] => match size_lit n with Some nz => [FCopy (i_op i) d s nz] | None => [] end
+                       | _ => []
+                       end
+                     else []) (all_insts f).
+Definition inter (A B : list fact) : list fact := filter (fun fc => fact_in fc B) A.
+Fixpoint enum_from {A} (k : N) (l : list A) : list (N * A) :=
+  match l with [] => [] | x :: t => (k, x) :: enum_from (N.succ k) t end.
+Definition refine_once (C : certs) (f : func) (E : list (list fact)) : list (list fact) :=
+  (* exits of every block under the current E, then meet over incoming edges *)
+  let exits := map (fun p => (fst p, (succs (snd p), exit_facts C (entry_of E (fst p)) (snd p)))) (enum_from 0%N f) in
+  map (fun p =>
+         let l := fst p in
+         if N.eqb l 0 then []
+         else fold_left (fun acc q => if existsb (N.eqb l) (fst (snd q)) then inter acc (snd (snd q)) else acc) exits (snd p))
+      (enum_from 0%N E).
+Fixpoint iterate (C : certs) (f : func) (E : list (list fact)) (n : nat) : list (list fact) :=
+  match n with O => E | S k => iterate C f (refine_once C f E) k end.
+Definition infer_entry (C : certs) (f : func) (rounds : nat) : list (list fact) :=
+  let U := universe C f in
+  (* derived facts (copies of copies) are not in the universe of syntactic copies: close it one step *)
+  iterate C f (map (fun p => if N.eqb (fst p) 0 then [] else U) (enum_from 0%N f)) rounds.
